@@ -286,3 +286,33 @@ pub fn accessors(p: &swift_mt_message::ParsedSwiftMessage) -> Vec<(&'static str,
         ("950", p.as_mt950().is_some(), p.clone().into_mt950().is_some()),
     ]
 }
+
+/// `MTnnn::parse(input)` — the inherent convenience entry point 18 of the message types offer (full message
+/// text or bare text block): Some(body JSON or error text) for those types, None for the others
+pub fn inherent_parse(code: &str, input: &str) -> Option<std::result::Result<Value, String>> {
+    use swift_mt_message::messages::*;
+    fn j<T: serde::Serialize>(r: std::result::Result<T, ParseError>) -> std::result::Result<Value, String> {
+        r.map_err(|e| e.to_string()).and_then(|v| serde_json::to_value(v).map_err(|e| e.to_string()))
+    }
+    Some(match code {
+        "101" => j(MT101::parse(input)),
+        "103" => j(MT103::parse(input)),
+        "104" => j(MT104::parse(input)),
+        "107" => j(MT107::parse(input)),
+        "110" => j(MT110::parse(input)),
+        "111" => j(MT111::parse(input)),
+        "112" => j(MT112::parse(input)),
+        "190" => j(MT190::parse(input)),
+        "191" => j(MT191::parse(input)),
+        "192" => j(MT192::parse(input)),
+        "196" => j(MT196::parse(input)),
+        "199" => j(MT199::parse(input)),
+        "200" => j(MT200::parse(input)),
+        "290" => j(MT290::parse(input)),
+        "291" => j(MT291::parse(input)),
+        "900" => j(MT900::parse(input)),
+        "910" => j(MT910::parse(input)),
+        "920" => j(MT920::parse(input)),
+        _ => return None,
+    })
+}
